@@ -5,7 +5,15 @@
 #include "../stubs/types.h"
 #include "binary_io.h"
 #include "../stubs/backend_io.h"
-#if LAYER == 1
+/* LAYER 4 = clamp (configuration: min, max coordinate vectors, tag AB020002),
+ * LAYER 5 = backup (min, max, default value, tag AB020001): same framing, raw configuration bytes in member order */
+#if LAYER == 4
+#define GOLDEN_TAG 0xAB020002u
+#define CODE_TAG VERIF_TAG_CLAMP
+#elif LAYER == 5
+#define GOLDEN_TAG 0xAB020001u
+#define CODE_TAG VERIF_TAG_BACKUP
+#elif LAYER == 1
 #define GOLDEN_TAG 0xAB020010u
 #define CODE_TAG VERIF_TAG_STRIDED
 #elif LAYER == 2
@@ -16,13 +24,39 @@
 #define CODE_TAG VERIF_TAG_HILBERT
 #endif
 static const uint32_t verif_layer_tag_obj = CODE_TAG;   /* the layer's static constexpr IO_MAGIC_HEADER as g++ evaluates it */
+#define NDSIZE_EQ_K(k, v, fs, off) ((v).m_data[k] == LE64_AT((fs)->buf, (off) + 8 * (k)))
+#if LAYER <= 3
 typedef struct { ND_SIZE_T m_sizes; B_OWN_T m_storage; } LAYER_OWN_T;
 /* owning_data_t(const configuration_t & c, backend_t::owning_data_t && b): m_sizes(c), m_storage(move(b))  (constructor, not extracted) */
 static LAYER_OWN_T verif_layer_own_ctor(ND_SIZE_T c, B_OWN_T b) { LAYER_OWN_T r; r.m_sizes = c; r.m_storage = b; return r; }
 #define CONF_BYTES (8 * DIMS_IN)
+#define CONF_EQ(obj, fs, off) VERIF_ALL(DIMS_IN, NDSIZE_EQ_K, (obj).m_sizes, fs, off)
+#define B_MEMBER m_storage
+#else
+#define SB sizeof(IN_SCALAR_T)
+#define SO sizeof(OUT_SCALAR_T)
+#define INVEC_EQ_K(k, v, fs, off) __CPROVER_equal((v).m_data[k], *(const IN_SCALAR_T *)((fs)->buf + (off) + (k) * SB))
+#define OUTVEC_EQ_K(k, v, fs, off) __CPROVER_equal((v).m_data[k], *(const OUT_SCALAR_T *)((fs)->buf + (off) + (k) * SO))
+#define B_MEMBER m_backend
+#if LAYER == 4
+typedef struct { IN_VEC_T m_min, m_max; B_OWN_T m_backend; } LAYER_OWN_T;
+static LAYER_OWN_T verif_clamp_own_ctor(IN_VEC_T mn, IN_VEC_T mx, B_OWN_T b) { LAYER_OWN_T r; r.m_min = mn; r.m_max = mx; r.m_backend = b; return r; }
+#define CONF_BYTES (2 * DIMS_IN * SB)
+#define CONF_EQ(obj, fs, off) (VERIF_ALL(DIMS_IN, INVEC_EQ_K, (obj).m_min, fs, off) && VERIF_ALL(DIMS_IN, INVEC_EQ_K, (obj).m_max, fs, (off) + DIMS_IN * SB))
+#else
+typedef struct { IN_VEC_T m_min, m_max; OUT_VEC_T m_default; B_OWN_T m_backend; } LAYER_OWN_T;
+static LAYER_OWN_T verif_backup_own_ctor(IN_VEC_T mn, IN_VEC_T mx, OUT_VEC_T df, B_OWN_T b) { LAYER_OWN_T r; r.m_min = mn; r.m_max = mx; r.m_default = df; r.m_backend = b; return r; }
+#define CONF_BYTES (2 * DIMS_IN * SB + DIMS_OUT * SO)
+#define CONF_EQ(obj, fs, off) (VERIF_ALL(DIMS_IN, INVEC_EQ_K, (obj).m_min, fs, off) && VERIF_ALL(DIMS_IN, INVEC_EQ_K, (obj).m_max, fs, (off) + DIMS_IN * SB) && \
+                               VERIF_ALL(DIMS_OUT, OUTVEC_EQ_K, (obj).m_default, fs, (off) + 2 * DIMS_IN * SB))
+#endif
+#define CONTRACT_read_binary_invec(fs) RB_COMMON(fs, DIMS_IN * SB) \
+  __CPROVER_ensures(verif_thrown == 0 ==> VERIF_ALL(DIMS_IN, INVEC_EQ_K, __CPROVER_return_value, fs, (fs)->pos - DIMS_IN * SB))
+#define CONTRACT_read_binary_outvec(fs) RB_COMMON(fs, DIMS_OUT * SO) \
+  __CPROVER_ensures(verif_thrown == 0 ==> VERIF_ALL(DIMS_OUT, OUTVEC_EQ_K, __CPROVER_return_value, fs, (fs)->pos - DIMS_OUT * SO))
+#endif
 
 /* read_binary<nd_size<N>> instance of the template in binary_io.hpp */
-#define NDSIZE_EQ_K(k, v, fs, off) ((v).m_data[k] == LE64_AT((fs)->buf, (off) + 8 * (k)))
 #define CONTRACT_read_binary_ndsize(fs) RB_COMMON(fs, CONF_BYTES) \
   __CPROVER_ensures(verif_thrown == 0 ==> VERIF_ALL(DIMS_IN, NDSIZE_EQ_K, __CPROVER_return_value, fs, (fs)->pos - CONF_BYTES))
 
@@ -39,8 +73,8 @@ static LAYER_OWN_T verif_layer_own_ctor(ND_SIZE_T c, B_OWN_T b) { LAYER_OWN_T r;
   __CPROVER_ensures(LAYER_IMAGE_OK(fs, __CPROVER_old((fs)->pos)) ==> verif_thrown == 0) \
   __CPROVER_ensures(verif_thrown == 0 ==> LAYER_IMAGE_OK(fs, __CPROVER_old((fs)->pos))) \
   __CPROVER_ensures(verif_thrown == 0 ==> (fs)->pos == __CPROVER_old((fs)->pos) + 16 + CONF_BYTES + verif_b_image_len) \
-  __CPROVER_ensures(verif_thrown == 0 ==> VERIF_ALL(DIMS_IN, NDSIZE_EQ_K, __CPROVER_return_value.m_sizes, fs, __CPROVER_old((fs)->pos) + 8)) \
-  __CPROVER_ensures(verif_thrown == 0 ==> (__CPROVER_return_value.m_storage.token == verif_b_loaded.token && verif_b_read_calls == 1 && \
+  __CPROVER_ensures(verif_thrown == 0 ==> CONF_EQ(__CPROVER_return_value, fs, __CPROVER_old((fs)->pos) + 8)) \
+  __CPROVER_ensures(verif_thrown == 0 ==> (__CPROVER_return_value.B_MEMBER.token == verif_b_loaded.token && verif_b_read_calls == 1 && \
                                            verif_b_read_pos == __CPROVER_old((fs)->pos) + 8 + CONF_BYTES)) \
   __CPROVER_ensures((fs)->pos <= (fs)->len) \
   __CPROVER_assigns((fs)->pos, (fs)->failbit, (fs)->eofbit, verif_thrown, VERIF_B_IO_GHOSTS)
@@ -52,7 +86,7 @@ size_t verif_l0;   /* ghost: output length at entry */
   __CPROVER_requires(verif_l0 == (fs)->len && verif_b_write_calls == 0) \
   __CPROVER_ensures((fs)->len == verif_l0 + 16 + CONF_BYTES + verif_b_image_len) \
   __CPROVER_ensures(LE32_AT((fs)->buf, verif_l0) == GOLDEN_MAGIC_HEADER && LE32_AT((fs)->buf, verif_l0 + 4) == GOLDEN_TAG) \
-  __CPROVER_ensures(VERIF_ALL(DIMS_IN, NDSIZE_EQ_K, (o)->m_sizes, fs, verif_l0 + 8)) \
-  __CPROVER_ensures(verif_b_write_calls == 1 && verif_b_write_pos == verif_l0 + 8 + CONF_BYTES && verif_b_written_token == (o)->m_storage.token) \
+  __CPROVER_ensures(CONF_EQ(*(o), fs, verif_l0 + 8)) \
+  __CPROVER_ensures(verif_b_write_calls == 1 && verif_b_write_pos == verif_l0 + 8 + CONF_BYTES && verif_b_written_token == (o)->B_MEMBER.token) \
   __CPROVER_ensures(LE32_AT((fs)->buf, (fs)->len - 8) == GOLDEN_MAGIC_FOOTER && LE32_AT((fs)->buf, (fs)->len - 4) == (uint32_t)(GOLDEN_TAG + GOLDEN_FOOTER_OFFSET)) \
   __CPROVER_assigns((fs)->len, __CPROVER_object_from((fs)->buf + (fs)->len), VERIF_B_IO_GHOSTS)
